@@ -5,15 +5,10 @@ import Afkak.Monitor.C16
 namespace Afkak.Props.C16.Open
 open Afkak.Group Afkak.Consts Afkak.Monitor.C16
 
-/-- Full strength: a JoinGroup request is issued only when no consumer is running OR DRAINING.
-    The code violates the "draining" half while `ConsumerGroup.stop()` is waiting for its consumers
-    (known finding `join-while-stop-drain-pending`): see `C16_join_after_drain_counterexample`.
-    What is proved for every trace is the "running" half, `C16_join_no_running`. -/
+/-- Full strength: a JoinGroup request is issued only when no consumer is running OR DRAINING
+    (since fix 05f4891 `on_join_prepare` no longer proceeds while `stop()` drains its consumers).
+    The "running" half is `C16_join_no_running`. -/
 def C16_join_after_drain : Prop := ∀ (cfg : Cfg) (evs : List Ev), joinAfterDrain (toMSteps (run cfg evs)) = true
-
-/-- … and the "draining" half for traces without a user `stop` (expected to hold; not yet proved). -/
-def C16_join_after_drain_nostop : Prop :=
-  ∀ (cfg : Cfg) (evs : List Ev), evs.all (fun e => !isStopEv e) = true → joinAfterDrain (toMSteps (run cfg evs)) = true
 
 /-- At most one join/sync request outstanding, as counted on the observed trace (requests, replies
     and cancellations).  Proved at state level (`C16_one_join_coroutine`: the coroutine slot is
